@@ -1,4 +1,5 @@
 import Driver.Wire
+import Driver.Size
 open Anemo Anemo.Driver
 
 /-- state carried across lines by the stateful models -/
@@ -12,6 +13,7 @@ def step (st : DState) (line : String) : DState × String :=
   | cmd :: rest =>
     let args := parseArgs rest
     if cmd.startsWith "wire." then (st, wireOp cmd args)
+    else if cmd.startsWith "size." then (st, sizeOp cmd args)
     else (st, "bad-op")
 
 partial def loop (h : IO.FS.Stream) (out : IO.FS.Stream) (st : DState) : IO Unit := do
